@@ -143,6 +143,7 @@ def run(ctx, rep):
     _identity.run(F, rep)
     _identity.zip_lengths(F, rep, "C03.zip-length")
     signature_invariance(F, rep, "C03.signature-invariance")
+    generic_keeps_its_side(F, rep)
     # "operator applied to unsupported kinds" is refused: the static operator table accepts no cell the interpreter's operators refuse by kind (the
     # comparison of the two tables is C02's; the same cells, read as "an ill-typed operator expression is rejected", belong here too)
     from props import C02 as _c02
@@ -574,3 +575,40 @@ def diagnostics_name_the_source_file(F, rep, rule="C03.diagnostic-file"):
     if not bad:
         rep.ob(rule, "no positioned diagnostic is reported against the bytecode file's name", "ok", "%d diagnostic constructions inspected" % n, None, key=rule + "|summary")
     rep.floor(rule + " positioned diagnostic constructions", n, 90)
+
+
+def generic_keeps_its_side(F, rep, rule="C03.optional-direction"):
+    """eq_complex(slot, value) is asymmetric (`T?` takes `T`, `T` does not take `T?`).  The result type of `map` is a generic that is locked to the
+    callback's return type; when a generic stands on the *value* side (`ys: [int...] = xs.map(f)` with f returning `int?`) the locked type has to
+    be compared as the value - `slot.eq_complex(locked)` - not as the slot.  Structurally: among the functions eq_complex hands a GenericType
+    to, one compares with the locked type as receiver (generic on the slot side) and one with the locked type as argument (generic on the
+    value side); a single or-pattern arm for both sides compares `locked.eq_complex(other)` in both roles and lets `[int?...]` into `[int...]`."""
+    eqc = [f for f in F.crates["compiler"].fns if f.path.endswith("TypeLayout::eq_complex") and f.kind != "Closure"]
+    if len(eqc) != 1:
+        raise AnchorMissing("TypeLayout::eq_complex")
+    eqc = eqc[0]
+    helpers = {}
+    for c in eqc.calls():
+        if not c.args:
+            continue
+        l = op_local(c.args[0])
+        if l is not None and "GenericType" in eqc.locals[l] and (c.callee() or "").startswith("compiler::"):
+            g = F.fn(c.callee())
+            if g is not None:
+                helpers[g.path] = g
+    rep.floor(rule + " generic comparisons in eq_complex", len(helpers), 1)
+    as_slot = as_value = False
+    for g in helpers.values():
+        locks = g.calls_to("compiler::ast::r#type::GenericType::try_get_lock")
+        der = g.derived([c.dst["l"] for c in locks if c.dst], through_call=lambda cc, idx: True)
+        for c in g.calls_to("compiler::ast::r#type::TypeLayout::eq_complex"):
+            r, a = op_local(c.args[0]), op_local(c.args[1]) if len(c.args) > 1 else None
+            if r in der and a not in der:
+                as_slot = True
+            if a in der and r not in der:
+                as_value = True
+    ok_ = as_slot and as_value
+    rep.ob(rule, "a generic on the value side of eq_complex is compared as the value (slot.eq_complex(locked)), on the slot side as the slot",
+           "ok" if ok_ else ("violated" if as_slot else "undecided"),
+           "" if ok_ else "the locked type of a generic is only ever the receiver of eq_complex: `ys: [int...] = xs.map(fn(x: int) -> int? {..})` is accepted and ys holds nil",
+           eqc.span, fn=eqc.path, key=rule + "|generic-side")
